@@ -228,6 +228,13 @@ def fb_plan(tier, seed, binary, sub, stalls, trials_q, trials_t, threads_q=(1, 2
         runs.append(fb(binary, "asan", sub, seed, k, thr, mode="jitter", trials=max(3, trials // 3), **extra))
         k += 1
         runs.append(fb(binary, "dbg", sub, seed, k, thr, mode="jitter", trials=max(3, trials // 3), **extra))
+    # long-lived windows under ASan: a stalled thread keeps using an object that the others meanwhile finish with and free
+    for i, sp in enumerate(stalls):
+        if q and i % 2 == 0 and len(stalls) > 2:
+            continue
+        k += 1
+        runs.append(fb(binary, "asan", sub, seed, k, 4, mode="stall", stall_point=sp, stall_every=stall_every, stall_us_lo=50, stall_us_hi=1500,
+                       trials=max(3, trials // 4), **extra))
     # signal-driven preemption of the kernel threads at arbitrary instructions (windows without hook points)
     for thr in ((threads_q[-2], threads_q[-1]) if q else threads_t[2:]):
         for mode in ("monitor", "jitter"):
